@@ -330,6 +330,19 @@ func (this *partition) removeNode(nodeId uint64) {
 	}
 }
 
+// Replaces the replica set with the one recorded in a catalogue snapshot
+func (this *partition) setNodes(nodeIds []uint64) {
+	wasOnNode := this.isOnNode(this.raftTransport.NodeId())
+	this.meta.NodeIds = append(make([]uint64, 0, len(nodeIds)), nodeIds...)
+	isOnNode := this.isOnNode(this.raftTransport.NodeId())
+
+	if isOnNode && !wasOnNode {
+		this.loadRaft(nil)
+	} else if !isOnNode && wasOnNode {
+		this.unloadRaft()
+	}
+}
+
 func (this *partition) proposeAndWaitForCommit(ctx context.Context, proposal *pb.PartitionChange) (interface{}, error) {
 	ctx, cancelCtx := context.WithTimeout(ctx, proposalTimeout)
 	defer cancelCtx()
